@@ -19,14 +19,15 @@ import os
 import random
 import subprocess
 import sys
+import traceback
 
 from harness import core, corpus
 
 LEAN_MODULES = ['CpProps.C14']
 RULE = ('CORPUS + CONSTRUCTED: every (class, bytes) pair the repo\'s own test-suite parses successfully (harvested at run '
         'time) plus hand-built objects (flag sets in several insertion orders, None-valued optionals, non-ASCII text, '
-        'unknown/GREASE code points, empty containers, dicts with enum / int / mixed keys, every serialisable enum member '
-        'sampled) is serialised by the real code and by the model; texts are compared exactly. A case is non-trivial '
+        'unknown/GREASE code points, empty containers, dicts with enum / int / mixed keys, every member of every '
+        'enumeration of the library) is serialised by the real code and by the model; texts are compared exactly. A case is non-trivial '
         'when its JSON document is not a bare scalar and is distinct from every other case\'s document.')
 ASSUMPTIONS = [
     'the abstraction function `abstract` (harness/props/c14.py) asks the same isinstance/hasattr questions as '
@@ -66,8 +67,8 @@ def hs(text):
 def _safe_str(obj):
     try:
         return str(obj)
-    except Exception:  # pylint: disable=broad-except
-        return ''
+    except Exception as e:  # pylint: disable=broad-except
+        raise Unsupported('str() of a {} raises {}'.format(type(obj).__name__, type(e).__name__))
 
 
 _SENTINEL = (False, '<sentinel>')
@@ -285,12 +286,11 @@ def _make_test_classes():
 
 def constructed_objects():
     """name -> object"""
-    from cryptoparser.dnsrec.record import DnsRecordDnskey, DnsSecFlag
+    from cryptoparser.dnsrec.record import DnsSecFlag
     from cryptoparser.tls.mysql import MySQLCapability
     from cryptoparser.tls.rdp import RDPProtocol
     objs = collections.OrderedDict()
     Colour, Level, Inner, Plain, Bag, Holder = _test_classes()
-    nan = float('nan')
     objs['scalars'] = Holder([None, True, False, 0, -1, 2 ** 70, 1.5, 1e-05, 1e+16, -0.0, '', 'plain', b'', b'\x00\xab\xff',
                               bytearray(b'\x01')])
     objs['text-nonascii'] = Holder(['éß', '中文', '\U0001f600 smile', 'quote" back\\slash', 'ctl\x00\x01\x1f\x7f',
@@ -308,14 +308,13 @@ def constructed_objects():
     objs['dict-object-keys'] = Holder(collections.OrderedDict([(Colour.RED, [1]), (datetime.timedelta(seconds=61), 2)]))
     objs['stdlib-objects'] = Holder([datetime.timedelta(days=1, seconds=5), datetime.datetime(2020, 1, 2, 3, 4, 5),
                                      datetime.date(2020, 1, 2)])
-    objs['floats-nonfinite'] = Holder([nan, float('inf'), float('-inf')])
+    objs['floats-nonfinite'] = Holder([float('nan'), float('inf'), float('-inf')])
     objs['mixed-keys'] = Holder({1: 'a', 'b': 2})
     for name, members in (('dnskey', [DnsSecFlag.DNS_ZONE_KEY, DnsSecFlag.SECURE_ENTRY_POINT, DnsSecFlag.REVOKE]),
                           ('mysql', [MySQLCapability.CLIENT_SSL, MySQLCapability.CLIENT_PROTOCOL_41,
                                      MySQLCapability.CLIENT_LONG_PASSWORD, MySQLCapability.CLIENT_PLUGIN_AUTH]),
                           ('rdp', [RDPProtocol.SSL, RDPProtocol.HYBRID, RDPProtocol.HYBRID_EX])):
         objs['set-' + name] = Holder(set(members))
-    del nan
     return objs
 
 
@@ -345,8 +344,7 @@ def _library_holder(enum_cls, members):
     """the flag set inside the library class that carries it (None: no such class, use a test holder)"""
     import attr
     from cryptoparser.dnsrec.record import DnsRecordDnskey, DnsSecFlag
-    from cryptoparser.tls.mysql import (
-        MySQLCapability, MySQLCharacterSet, MySQLHandshakeSslRequest, MySQLHandshakeV10, MySQLStatusFlag, MySQLVersion)
+    from cryptoparser.tls.mysql import MySQLCapability, MySQLCharacterSet, MySQLHandshakeV10, MySQLStatusFlag, MySQLVersion
     from cryptoparser.tls.rdp import RDPNegotiationRequest, RDPProtocol
     if enum_cls is DnsSecFlag:
         base = [cls.parse_exact_size(data) for cls, data in corpus.harvest() if cls is DnsRecordDnskey]
@@ -379,7 +377,7 @@ def build_set_pair(case):
 
 def library_objects():
     """objects of library classes that parsing does not produce: defaults, None-valued optionals, empty containers"""
-    from cryptoparser.tls.mysql import MySQLCapability, MySQLCharacterSet, MySQLHandshakeSslRequest, MySQLHandshakeV10, MySQLVersion
+    from cryptoparser.tls.mysql import MySQLHandshakeSslRequest, MySQLHandshakeV10, MySQLVersion
     from cryptoparser.tls.rdp import RDPNegotiationRequest
     from cryptoparser.tls.extension import TlsExtensionUnparsed, TlsExtensionsClient
     from cryptoparser.tls.grease import TlsInvalidTypeOneByte, TlsInvalidTypeTwoByte
@@ -474,7 +472,9 @@ def check_object(case, obj):
     try:
         md = impl_markdown(obj)
     except Exception as e:  # pylint: disable=broad-except
-        return bad + [('markdown-raises', 'as_markdown raised {}: {}'.format(type(e).__name__, e))]
+        where = traceback.extract_tb(e.__traceback__)[-1].name
+        return bad + [('markdown-raises-in-' + where, 'Markdown serialisation raised {}: {} (in {})'.format(
+            type(e).__name__, e, where))]
     if not isinstance(md, str) and not type(obj).__module__.startswith('test.'):      # a test class may return anything
         bad.append(('markdown-not-text', 'as_markdown() returned {} ({!r}), not text'.format(type(md).__name__, md)))
     if pinned_classes():
@@ -661,7 +661,7 @@ def enum_cases(run, per_class):
 
 
 def run(run, driver_ok=True, deep=False):  # pylint: disable=redefined-outer-name
-    cases = all_cases(run) + enum_cases(run, 3 if run.tier == 'quick' and not deep else None)
+    cases = all_cases(run) + enum_cases(run, None)
     usable = []
     for case in cases:
         term = term_of(case)
